@@ -287,3 +287,19 @@ def run(ck, prog, ctx):
             if layout.field_stores(prog, db, owner):
                 n_l += layout.check_field_independence(ck, "LAYOUT", prog, db, owner, db.name)
     ck.floor("LAYOUT", "optional field stores in the term decoder", n_l, 2)
+
+    # ------------------------------------------------------------------ LAYOUT: the decoder reads the fields where the encoder writes them
+    PAIRS = [("term", r"^term::internal::HpoTermInternal::as_bytes$", r"^parser::binary::term::from_bytes_v2$", "HpoTermInternal"),
+             ("gene", r"^annotations::gene::Gene::as_bytes$", r"<annotations::gene::Gene as std::convert::TryFrom<&\[u8\]>>::try_from$", "Gene"),
+             ("omim", r"<annotations::omim_disease::OmimDisease as annotations::disease::Disease>::as_bytes$", r"^annotations::disease::Disease::from_bytes$", "OmimDisease|Disease"),
+             ("orpha", r"<annotations::orpha_disease::OrphaDisease as annotations::disease::Disease>::as_bytes$", r"^annotations::disease::Disease::from_bytes$", "OrphaDisease|Disease"),
+             ("disease-default", r"^annotations::disease::Disease::as_bytes$", r"^annotations::disease::Disease::from_bytes$", "Disease")]
+    n_pairs = 0
+    for lab, wrx, rrx, own in PAIRS:
+        wb, rb = prog.one(wrx), prog.one(rrx)
+        if wb is None or rb is None:
+            continue
+        k = layout.check_record_layout(ck, "LAYOUT", prog, wb, rb, own, lab)
+        if k:
+            n_pairs += 1
+    ck.floor("LAYOUT", "record codecs with an aligned writer/reader layout", n_pairs, 3)
